@@ -129,9 +129,15 @@ def aged_sessions(ctx: Ctx):
              ["auth", "half", "send", "half", "auth", "send", "half", "send", "half", "send"]]
     for _ in range(ctx.pick(12, 200)):
         plans.append(["auth"] + [rng.choice(["send", "send", "half", "half", "auth", "close", "full"]) for _ in range(rng.randint(4, 12))] + ["send"])
+    nplain = len(plans)
+    # ... and with a maximum connection lifetime configured (and configured AGAIN while the connection exists): it runs from the connection's establishment
+    plans += [["auth", "send", "setlife", "life", "send", "send"], ["auth", "setlife", "send", "setlife", "life", "send"],
+              ["auth", "send", "life", "send", "setlife", "send", "life", "send"]]
+    for _ in range(ctx.pick(8, 120)):
+        plans.append(["auth"] + [rng.choice(["send", "send", "setlife", "life", "half", "close", "auth"]) for _ in range(rng.randint(4, 10))] + ["send"])
     runs = []
     for k, pl in enumerate(plans):
-        s = sched.Session(version=3, retries=3, seed=ctx.seed * 977 + k)
+        s = sched.Session(version=3, retries=3, seed=ctx.seed * 977 + k, lifetime=None if k < nplain else session.LIFE)
         try:
             for a in pl:
                 if a == "auth":
@@ -146,6 +152,10 @@ def aged_sessions(ctx: Ctx):
                     s.jumpauth()
                 elif a == "close" and "peerclose" in s.enabled():
                     s.peerclose()
+                elif a == "setlife" and s.lan._protocol is not None:
+                    s.setlife()
+                elif a == "life" and "jumplife" in session.model_enabled(s):
+                    s.jumplife()
         finally:
             s.close()
         runs.append({"steps": s.steps, "events": s.trace, "stuck": None, "plan": pl})
